@@ -24,7 +24,10 @@ PATHS = ["", "", "[heap]", "[stack]", "[vdso]", ROOT + "/lib/libc.so.6",
          ROOT + "/lib/libc.so.6", ROOT + "/bin/app", ROOT + "/my dir/lib x.so",
          ROOT + "/shm/a:b", ROOT + "/tmp/gone (deleted)",
          ROOT + "/tmp/kept (deleted)", "/memfd:name (deleted)", "[anon:tag]",
-         ROOT + "/lib/\xe9\xe8.so", "anon_inode:[io_uring]", ROOT + "/x:"]
+         ROOT + "/lib/\xe9\xe8.so", "anon_inode:[io_uring]", ROOT + "/x:",
+         # runs of blanks / tabs inside a name are part of the name
+         ROOT + "/data/My  Lib.so", ROOT + "/data/My Lib.so", ROOT + "/data/tab\there.bin",
+         ROOT + "/data/My   Lib.so"]
 
 CORE = ["Size", "Rss", "Pss", "Shared_Clean", "Shared_Dirty", "Private_Clean",
         "Private_Dirty", "Referenced", "Anonymous", "Swap"]
